@@ -422,6 +422,56 @@ fn jobs(tier: Tier) -> Vec<C09Job> {
             }
         }
     }
+    // The default picker pair (invalid-ratio first, FIFO second) with deletes that empty one block which is not
+    // the oldest: 64 KiB blocks hold five 3-page entries (93% of the block, above the 80% threshold), keys 6..=10
+    // fill the second block and are all deleted, so the invalid-ratio picker takes that block out of FIFO order
+    // (exactly one block is above the threshold: no tie, deterministic) and the FIFO picker decides afterwards.
+    {
+        let mut cfg = HybCfg::small(true, true);
+        cfg.blocks = 4;
+        cfg.block_size = 64 * 1024;
+        cfg.flushers = 1;
+        cfg.reclaimers = 1;
+        cfg.clean_threshold = 1;
+        cfg.mem_capacity = 1;
+        cfg.fifo_picker_only = false;
+        cfg.buffer_pool_size = 256 * 1024;
+        let mut prog = vec![];
+        for k in 1..=15u64 {
+            prog.push(HOp::Ins { k, sz: 9000, loc: Loc::Default });
+            if k % 5 == 0 {
+                prog.push(HOp::Wait);
+            }
+        }
+        for k in 6..=10u64 {
+            prog.push(HOp::Rm { k });
+        }
+        prog.push(HOp::Wait);
+        for k in 16..=40u64 {
+            prog.push(HOp::Ins { k, sz: 9000, loc: Loc::Default });
+            if k % 5 == 0 {
+                prog.push(HOp::Wait);
+                prog.push(HOp::Get { k: k - 1 });
+            }
+        }
+        prog.push(HOp::Wait);
+        prog.push(HOp::Get { k: 1 });
+        prog.push(HOp::Get { k: 40 });
+        prog.push(HOp::Close);
+        let plan2: Vec<(BasePolicy, usize)> = match tier {
+            Tier::Quick => vec![(Eager, 0), (Alternate, 0), (LazyIo, 0)],
+            Tier::Thorough => vec![(Eager, 1), (Alternate, 1), (LazyIo, 1)],
+        };
+        for (policy, bound) in plan2 {
+            v.push(C09Job {
+                cfg: cfg.clone(),
+                prog: prog.clone(),
+                policy,
+                bound,
+                deletes: true,
+            });
+        }
+    }
     v
 }
 
